@@ -2,6 +2,7 @@
    stdout: "<id>\t<expected observable>" *)
 open C07_Strict
 open C07_Float
+open C07_FloatPow
 open GoSem
 
 let z = Zio.z_of_string
@@ -49,8 +50,10 @@ let show_cmp = function
 let b64 bits = if f64_nan_bits bits then "nan" else zs bits
 let b32 bits = if f32_nan_bits bits then "nan" else zs bits
 
-let eval (f : string list) : string =
+let rec eval (f : string list) : string =
   match f with
+  | "fp" :: _ :: rest -> eval ("f" :: rest)
+  | [ "fpi"; _; op; a; n ] -> eval [ "f"; "fl"; op; a; zs (f64_of_int_bits (z n)) ]
   | [ "bin"; _; ty; op; a; b ] ->
       let s, w = ty_of ty in
       let w = Zio.z_of_int w in
@@ -80,6 +83,13 @@ let eval (f : string list) : string =
       match op with
       | "add" | "sub" | "mul" | "div" ->
           if is32 then b32 (f32_op_bits (fop_of op) a b) else b64 (f64_op_bits (fop_of op) a b)
+      | "pow" -> (
+          (* Some bits: an IEEE 754-2008 9.2.1 special case; "nonspecial": the value is a
+             rounded real power, outside the model (compared with Go's math.Pow) *)
+          match if is32 then f32_pow_special_bits a b else f64_pow_special_bits a b with
+          | Some r -> if is32 then b32 r else b64 r
+          | None -> "nonspecial")
+      | "mod" -> if is32 then b32 (f32_mod_bits a b) else b64 (f64_mod_bits a b)
       | "cmp" -> show_cmp (if is32 then f32_cmp_bits a b else f64_cmp_bits a b)
       | _ ->
           let c = if is32 then f32_cmp_bits a b else f64_cmp_bits a b in
